@@ -1264,6 +1264,47 @@ def emit_ins(em, fc, lb, ins, L, phi_moves):
     else:
         raise Exception('emit ' + op)
 
+def recursive_functions(mod, em):
+    """functions on a call-graph cycle (direct calls between defined functions): [{'cfunc','src'}]"""
+    g = {}
+    for n, f in mod.funcs.items():
+        if not f.defined: continue
+        cs = set()
+        for lb, inss in f.blocks:
+            for i in inss:
+                if i.op == 'call' and i.callee[0] == 'global' and i.callee[1] in mod.funcs and mod.funcs[i.callee[1]].defined:
+                    cs.add(i.callee[1])
+        g[n] = cs
+    idx = {}; low = {}; st = []; on = set(); out = []; c = [0]
+    def sc(v0):
+        work = [(v0, iter(g[v0]))]
+        idx[v0] = low[v0] = c[0]; c[0] += 1; st.append(v0); on.add(v0)
+        while work:
+            v, it = work[-1]
+            adv = False
+            for w in it:
+                if w not in idx:
+                    idx[w] = low[w] = c[0]; c[0] += 1; st.append(w); on.add(w)
+                    work.append((w, iter(g[w]))); adv = True; break
+                elif w in on:
+                    low[v] = min(low[v], idx[w])
+            if adv: continue
+            work.pop()
+            if work: low[work[-1][0]] = min(low[work[-1][0]], low[v])
+            if low[v] == idx[v]:
+                comp = []
+                while True:
+                    w = st.pop(); on.discard(w); comp.append(w)
+                    if w == v: break
+                if len(comp) > 1 or comp[0] in g[comp[0]]:
+                    for x in comp:
+                        f = mod.funcs[x]
+                        sub = md_scope_sub(mod, f.dbg) if getattr(f, 'dbg', None) is not None else None
+                        out.append({'cfunc': em.gname(x), 'src': (sub[0] if sub else em.gname(x)), 'group': em.gname(comp[0])})
+    for v in g:
+        if v not in idx: sc(v)
+    return out
+
 def nm_is_mem(cal):
     if cal[0] != 'global': return False
     nm = cal[1][1:].strip('"')
@@ -1356,6 +1397,8 @@ def translate(text, opts=None):
     out += gdef
     out += body
     text = '\n'.join(out) + '\n'
+    if opts is not None and 'rec_out' in opts:
+        opts['rec_out'].extend(recursive_functions(mod, em))
     if opts is not None and 'loops_out' in opts:
         for i, ln in enumerate(text.split('\n'), 1):
             m = re.search(r'/\*@LOOP:(\d+)\*/', ln)
